@@ -141,12 +141,17 @@ package storage
 // ---------------------------------------------------------------- streamed range answers (C09)
 
 //@ import regattapb "github.com/jamf/regatta/regattapb"
+// getHeader completes a response header in place: the revision the table layer put there survives,
+// shard / replica / term / leader come from this node's configuration and its merged cluster view
+//@ import cluster "github.com/jamf/regatta/storage/cluster"
 //@ func (*Engine).getHeader
-//@   assumed
-//@   modifies nothing
+//@   requires e != nil && e.Cluster != nil && e.Cluster.shardView != nil
+//@   ensures [C10.header.keep] result != nil && (header != nil ==> result == header && result.Revision == old(header.Revision)) && (header == nil ==> fresh(result) && result.Revision == 0)
+//@   ensures [C19.header] result.ShardId == shardID && result.ReplicaId == e.cfg.NodeID && (has(e.Cluster.shardView.shards, shardID) ==> result.RaftTerm == e.Cluster.shardView.shards[shardID].Term && result.RaftLeaderId == e.Cluster.shardView.shards[shardID].LeaderID)
+//@   modifies header.ReplicaId, header.ShardId, header.RaftTerm, header.RaftLeaderId
 // the conversion of a state-machine chunk into a streamed answer keeps pairs, count and the `more` flag
 //@ func (*Engine).IterateRange$1
-//@   requires s != nil
+//@   requires s != nil && *e != nil && (*e).Cluster != nil && (*e).Cluster.shardView != nil
 //@   ensures [C09.stream.copy] result != nil && fresh(result) && sameSlice(result.Kvs, s.Kvs) && result.More == s.More && result.Count == s.Count
 //@   modifies nothing
 
@@ -156,7 +161,6 @@ package storage
 // when dragonboat reports a compaction. The report travels as an event value over a channel.
 //@ import raftio "github.com/lni/dragonboat/v4/raftio"
 //@ import logreader "github.com/jamf/regatta/storage/logreader"
-//@ import cluster "github.com/jamf/regatta/storage/cluster"
 //@ import storage "github.com/jamf/regatta/storage"
 // ghost call log of the cache's invalidation entry points
 //@ ghostfield any.ncompact Int
@@ -187,3 +191,36 @@ package storage
 //@   modifies family(CH_len), family(CH_closed), e.engine.LogCache.ncompact, e.engine.LogCache.lastCompact
 //@   loop 0 invariant e.engine == old(e.engine) && e.engine.LogCache == old(e.engine.LogCache) && e.engine.log != nil && e.engine.Cluster != nil
 //@   loop 0 step [C06.event.dispatch] typeIs(evt, logCompacted) && asType(evt, logCompacted).ReplicaID == e.engine.cfg.NodeID && e.engine.LogCache != nil ==> e.engine.LogCache.ncompact == prev(e.engine.LogCache.ncompact) + 1 && e.engine.LogCache.lastCompact == asType(evt, logCompacted).ShardID
+
+// ---------------------------------------------------------------- acknowledged revision reaches the caller (C10)
+
+// Engine.Put/Delete/Txn: the header returned to the API layer carries the revision the state machine
+// assigned to this very proposal (ghost world.lastRev, set by the proposal), completed in place
+//@ import table "github.com/jamf/regatta/storage/table"
+//@ func (*Engine).Put
+//@   maypanic
+//@   results resp, err
+//@   requires e != nil && e.Manager != nil && e.Cluster != nil && e.Cluster.shardView != nil && req != nil && ctx != nil && e.Manager.store != nil && e.Manager.nh != nil
+//@   ensures [C10.engine.put.rev] err == nil ==> resp != nil && resp.Header != nil && resp.Header.Revision == world.lastRev
+//@   modifies family(G_any_nprop), world.lastRev, family(G_any_rHas), family(G_any_rPair)
+//@ func (*Engine).Delete
+//@   maypanic
+//@   results resp, err
+//@   requires e != nil && e.Manager != nil && e.Cluster != nil && e.Cluster.shardView != nil && req != nil && ctx != nil && e.Manager.store != nil && e.Manager.nh != nil
+//@   ensures [C10.engine.del.rev] err == nil ==> resp != nil && resp.Header != nil && resp.Header.Revision == world.lastRev
+//@   modifies family(G_any_nprop), world.lastRev, family(G_any_rHas), family(G_any_rPair)
+//@ func (*Engine).Txn
+//@   maypanic
+//@   results resp, err
+//@   requires e != nil && e.Manager != nil && e.Cluster != nil && e.Cluster.shardView != nil && req != nil && ctx != nil && e.Manager.store != nil && e.Manager.nh != nil
+//@   requires (forall j int :: 0 <= j && j < len(req.Success) ==> req.Success[j] != nil && opNonNilPayload(req.Success[j])) && (forall j int :: 0 <= j && j < len(req.Failure) ==> req.Failure[j] != nil && opNonNilPayload(req.Failure[j]))
+//@   ensures [C10.engine.txn.rev] err == nil && e.Manager.nh.nprop == old(e.Manager.nh.nprop) + 1 ==> resp != nil && resp.Header != nil && resp.Header.Revision == world.lastRev
+// (a read-only transaction's response comes from the state machine's lookup: its ownership is not established, hence the wide frame)
+//@   modifies family(G_any_nprop), family(G_any_nsync), family(G_any_nstale), world.lastRev, family(G_any_rHas), family(G_any_rPair), allfields(regattapb.TxnResponse), allfields(regattapb.ResponseHeader)
+// Engine.Range: the consistency level asked for decides the read path; the answer's header is new
+//@ func (*Engine).Range
+//@   maypanic
+//@   results resp, err
+//@   requires e != nil && e.Manager != nil && e.Cluster != nil && e.Cluster.shardView != nil && req != nil && ctx != nil && e.Manager.store != nil && e.Manager.nh != nil
+//@   ensures [C10.engine.range.path] err == nil && req.Linearizable ==> e.Manager.nh.nsync == old(e.Manager.nh.nsync) + 1 && e.Manager.nh.nstale == old(e.Manager.nh.nstale)
+//@   modifies family(G_any_nsync), family(G_any_nstale), family(G_any_rHas), family(G_any_rPair), allfields(regattapb.RangeResponse)
